@@ -215,6 +215,10 @@ func vAllocCheck() {
 // vRaceMode: native replay of a footprint counterexample under the race detector.
 func vRaceMode() bool { return os.Getenv("VERIF_RACE") != "" }
 
+// vPause lets goroutines started just before run (native replays only; it
+// creates no happens-before edge). Symbolically a no-op.
+func vPause() { time.Sleep(30 * time.Millisecond) }
+
 // ---- C16 events: natively these are schedule points (see zz_verif sched) ----
 var vEventHook func(name string)
 
